@@ -17,7 +17,7 @@ def run(ctx):
                 "{9 levels, None} x two sinks each with threshold {TraceL3, Warning, Critical} x filter set {none, reject-odd, "
                 "reject-all, both} x override pattern {none, on the second sink, on the first sink}, each statement with a side-effect argument; (b) a walk "
                 "through every ordered pair of statement kinds (static/dynamic level, plain/named args, run-time metadata) with "
-                "one backend event slot; (c) all schedules up to the preemption bound of two logging threads + one thread "
+                "one backend event slot; (d) every ordered pair of logger formatter-option sets that differ in exactly one field (pattern, timestamp pattern, time zone, multi-line flag) or in none, with an optional third logger, each logger's sink must get lines rendered with its own options (the backend shares formatter objects between loggers with equal options); (c) all schedules up to the preemption bound of two logging threads + one thread "
                 "changing the logger level / a sink threshold / adding a filter, against the preemptible backend; "
                 "distinct = distinct (statement, configuration) cases + distinct schedule outcomes")
     ctx.set_deadline(170 if ctx.tier == "quick" else 1800)
@@ -28,6 +28,8 @@ def run(ctx):
     jobs += [(exe, ["--only-slots", 1, "--hard", h], 600) for h in (2, 4, 8)]
     if ctx.tier == "thorough":
         jobs += [(exe, ["--shard", s, "--nshards", nsh, "--hard", 4], 600) for s in range(nsh)]
+    # (d) formatter sharing between loggers whose options are equal / differ in exactly one field
+    jobs += [(exe, ["--share", 1, "--hard", h], 600) for h in (1, 4)]
     for rr in vf.run_many(jobs):
         ctx.absorb(rr, "c16_levels")
     exe2 = opxlib.build("sc_c16", SRC_C)
